@@ -42,6 +42,9 @@ type c19Case struct {
 	AgentLevel    bool        `json:"agent_level"`
 	// MidRound: 40 extra hooks; the first event is followed by a second change made while the first round is still being started
 	MidRound bool `json:"mid_round"`
+	// Upgrades (agent level): the agent upgrades hashes on login ("local"); a login that makes the agent rewrite a record is a change
+	// made through the agent like any other update and must be followed by a hook round
+	Upgrades bool `json:"upgrades,omitempty"`
 }
 
 const hooksLimit = 5 * time.Second
@@ -81,9 +84,16 @@ func genC19(t *rapid.T) c19Case {
 		}
 		if c.AgentLevel {
 			tag++
-			kind := rapid.SampledFrom([]string{"add", "update", "setadmin", "remove", "add", "update", "auth", "list"}).Draw(t, "opkind")
+			if i == 0 {
+				c.Upgrades = rapid.Bool().Draw(t, "upgrades")
+			}
+			kind := rapid.SampledFrom([]string{"add", "update", "setadmin", "remove", "add", "update", "auth", "list", "login-upgradeable"}).Draw(t, "opkind")
 			u := rapid.SampledFrom([]string{"root", "cur1", "new1", "nosuch"}).Draw(t, "opuser")
 			op := opSpec{Kind: kind, User: u, PW: fmt.Sprintf("pw%d", tag), Admin: rapid.Bool().Draw(t, "adm")}
+			if kind == "login-upgradeable" {
+				op.Kind, op.User = "auth", rapid.SampledFrom([]string{"old1", "old2"}).Draw(t, "olduser")
+				op.PW = op.User + "pw"
+			}
 			ev.Kind, ev.Op = "op", &op
 		} else if rapid.IntRange(0, 7).Draw(t, "ns") == 0 {
 			ev.Kind, ev.Dir = "newstore", fmt.Sprintf("/new/store/%d", i)
@@ -184,7 +194,11 @@ func runC19(c c19Case) string {
 	var e *agentEnv
 	storeDir := filepath.Join(root, "thestore")
 	if c.AgentLevel {
-		if e, err = newAgentEnv(schedConfig(), schedUsers, "", "", "", hdir); err != nil {
+		upg := ""
+		if c.Upgrades {
+			upg = "local"
+		}
+		if e, err = newAgentEnv(schedConfig(), schedUsers, upg, "", "", hdir); err != nil {
 			return "VERIF-INFRA " + err.Error()
 		}
 		defer e.cleanup()
@@ -409,7 +423,19 @@ func runC19(c c19Case) string {
 				case "remove":
 					okOp = e.iface.Remove(ev.Op.User) == nil
 				case "auth":
+					recOf := func() []byte {
+						a, _ := os.ReadFile(filepath.Join(e.base, ev.Op.User+".user"))
+						b, _ := os.ReadFile(filepath.Join(e.base, ev.Op.User+".admin"))
+						return append(a, b...)
+					}
+					before := recOf()
 					e.iface.Authenticate(ev.Op.User, ev.Op.PW)
+					synctest.Wait()
+					if after := recOf(); string(after) != string(before) {
+						// the agent rewrote the record (hash upgrade on login): an update made through the agent
+						okOp = true
+						vlib.Class("agent-op:login-that-made-the-agent-rewrite-the-record")
+					}
 				case "list":
 					e.iface.List()
 				}
